@@ -132,6 +132,11 @@ def check_bytes(case):
     elif kind == "pk-byte":
         pk[m["pos"] % len(pk)] ^= 1 << (m["bit"] % 8)
         label = "pk-prefix" if m["pos"] % len(pk) == 0 else "pk-coord"
+    elif kind == "pk-prefix":
+        # same coordinates under another prefix byte (other parity, uncompressed/hybrid marker, undefined values)
+        cands = [b for b in (0x02, 0x03, 0x04, 0x05, 0x06, 0x07, 0x00, 0x01, 0xFF) if b != pk[0]]
+        pk[0] = cands[m["pos"] % len(cands)]
+        label = "pk-prefix"
     elif kind == "pk-hybrid":
         pt = ec.pub(d)
         pk = bytearray(bytes([6 + (pt[1] & 1)]) + pt[0].to_bytes(32, "big") + pt[1].to_bytes(32, "big"))
@@ -313,7 +318,7 @@ def verify_cases(draw):
 
 @st.composite
 def bytes_cases(draw):
-    kind = draw(st.sampled_from(["none", "msg", "flag", "pk-byte", "pk-byte", "pk-hybrid", "pk-len", "pk-x>=p", "pk-other", "der-value", "der-value", "der-struct", "der-struct", "neg-s", "infinity", "forge-x0"]))
+    kind = draw(st.sampled_from(["none", "msg", "flag", "pk-byte", "pk-byte", "pk-prefix", "pk-prefix", "pk-hybrid", "pk-len", "pk-x>=p", "pk-other", "der-value", "der-value", "der-struct", "der-struct", "neg-s", "infinity", "forge-x0"]))
     m = {"kind": kind, "pos": draw(st.integers(0, 200)), "bit": draw(st.integers(0, 7))}
     if kind == "flag":
         m["to"] = draw(st.sampled_from(FLAGS + [0, 4, 0x80, 0xFF]))
@@ -332,7 +337,7 @@ def bytes_cases(draw):
         "msg": draw(st.binary(max_size=80)).hex(),
         "comp": draw(st.booleans()),
         "mut": m,
-        "prime": draw(st.booleans()),
+        "prime": draw(st.booleans()) or kind == "pk-prefix",
     }
 
 
@@ -370,8 +375,8 @@ def targets(tier):
     return [
         Target("verify-secp", check_verify, strategy=lambda tier: verify_cases(), budget={"quick": 640, "thorough": 10000},
                required=["mut:s->n-s", "mut:z+n", "mut:u1G+u2P=infinity", "mut:other-key", "nt:expect-accept", "nt:expect-reject", "mut:flip-px"]),
-        Target("sigverify-bytes", check_bytes, strategy=lambda tier: bytes_cases(), budget={"quick": 640, "thorough": 10000},
-               required=["mut:der-struct", "mut:der-value", "mut:pk-hybrid", "mut:pk-len-otherform", "mut:flag", "mut:msg", "mut:u1G+u2P=infinity", "mut:forged-under-x0-key", "nt:expect-accept", "nt:expect-reject", "nt:nonstandard-sighash-byte-00"]),
+        Target("sigverify-bytes", check_bytes, strategy=lambda tier: bytes_cases(), budget={"quick": 800, "thorough": 10000},
+               required=["mut:der-struct", "mut:der-value", "mut:pk-hybrid", "mut:pk-prefix", "mut:pk-len-otherform", "mut:flag", "mut:msg", "mut:u1G+u2P=infinity", "mut:forged-under-x0-key", "nt:expect-accept", "nt:expect-reject", "nt:nonstandard-sighash-byte-00"]),
         Target("low-s", check_lows, strategy=lambda tier: lows_cases(), budget={"quick": 3000, "thorough": 40000},
                required=["nt:complement-short", "nt:complement-short-topbit", "nt:s-at-half", "nt:verified"]),
         Target("small-curve", check_small, enumerate_=enum_small, exhaustive=True),
